@@ -108,7 +108,7 @@ UNIT = {
 ASSUMPTIONS = [
     'A-graph: the registries of ModelEvaluator are opaque objects whose evaluate methods meet the contract the evaluator closures are proved to meet (a decision evaluator sets its own output variable to its own value '
     'and nothing else; a knowledge model evaluator adds its function bindings; a decision service as function adds its variable bound to its function; an input data evaluator hands out name and type-checked value): '
-    'the induction hypothesis along the acyclic requirement graph (acyclicity is checked at build time by check_cyclic_dependencies, not under contract)',
+    'the induction hypothesis along the acyclic requirement graph (acyclicity is checked at build time by check_cyclic_dependencies: unit cycles proves the check sound and complete over the collected graph)',
     'R8g: RwLock read guards are dropped - `model_evaluator.X_evaluator()` hands out a reference or an error (lock poisoning is not modelled: precondition locks_ok)',
     'R4: the closure of build_decision_evaluator is lifted, captured variables become parameters; R13: for_each -> for loops; R11: Default / clone / into / coerced as named stubs (A-ctx)',
     'A-eval: the value of the decision logic is a function of the evaluator and of the ENTRIES of the one context it is evaluated over (logic_value; axiom_logic_value)',
